@@ -685,14 +685,11 @@ impl SymbolicBDD {
     fn parse_negation(tokens: &mut TokenReader) -> io::Result<Self> {
         expect(SymbolicBDDToken::Not, tokens)?;
 
-        let sf = Self::parse_simple_sub_formula(tokens);
+        // negation applies to the next simple term; a failed attempt has already consumed tokens,
+        // so retrying from wherever it stopped would accept texts that are not formulas
+        let sf = Self::parse_simple_sub_formula(tokens)?;
 
-        if let Ok(sf_ok) = sf {
-            Ok(Self::Not(Box::new(sf_ok)))
-        } else {
-            // failover if the next part is not a simple formula
-            Ok(Self::Not(Box::new(Self::parse_sub_formula(tokens)?)))
-        }
+        Ok(Self::Not(Box::new(sf)))
     }
 
     fn parse_parentized_formula(tokens: &mut TokenReader) -> io::Result<Self> {
